@@ -63,6 +63,7 @@ class CsrfTokenCollection:
 
 class CsrfProtection:
     CSRF_COOKIE_NAME: ClassVar[str] = 'csrf'
+    CSRF_STAMP_LENGTH: ClassVar[int] = 10
 
     @classmethod
     def generate_cookie(cls) -> str:
@@ -116,7 +117,12 @@ class CsrfProtection:
         if strict_origin:
             sig.update(bytes(origin, 'utf-8'))
         sig.update(bytes(salt, 'utf-8'))
-        rv = urllib.parse.quote(salt + str(base64.b64encode(sig.digest())))
+        # the token says when it expires, so that the record of its use can be
+        # dropped after that time without the token becoming usable again
+        expires: datetime.datetime = datetime.datetime.now() + KEY_LIFETIMES[TokenType.CSRF]
+        stamp: str = f'{int(expires.timestamp()):0{cls.CSRF_STAMP_LENGTH}x}'
+        sig.update(bytes(stamp, 'utf-8'))
+        rv = urllib.parse.quote(salt + stamp + str(base64.b64encode(sig.digest())))
         # print('csrf', service, rv)
         return rv
 
@@ -155,13 +161,22 @@ class CsrfProtection:
             cur_url = urllib.parse.urlparse(flask.request.url, 'http')
             origin = '{}://{}'.format(cur_url.scheme, cur_url.netloc)
         logging.debug(f'check_csrf origin: "{origin}"')
-        existing_key: Token | None = Token.get_one(jti=token, token_type=TokenType.CSRF.value)
-        if existing_key is not None:
-            raise CsrfFailureException("Re-use of csrf_token")
-        jti = token
         salt = token[:Token.CSRF_SALT_LENGTH]
         logging.debug(f'check_csrf salt: "{salt}"')
         token = token[Token.CSRF_SALT_LENGTH:]
+        stamp = token[:cls.CSRF_STAMP_LENGTH]
+        token = token[cls.CSRF_STAMP_LENGTH:]
+        expires: datetime.datetime | None = None
+        try:
+            expires = datetime.datetime.fromtimestamp(int(stamp, 16))
+        except (ValueError, OverflowError, OSError):
+            logging.debug("invalid expiry time in csrf token: %s", stamp)
+        # the expiry time is covered by the signature, the record of a used
+        # token does not need to repeat it
+        jti = salt + token
+        existing_key: Token | None = Token.get_one(jti=jti, token_type=TokenType.CSRF.value)
+        if existing_key is not None:
+            raise CsrfFailureException("Re-use of csrf_token")
         cfg = flask.current_app.config['DASH']
         strict_origin = cfg.get('STRICT_CSRF_ORIGIN', 'False').lower() == 'true'
         sig = hmac.new(
@@ -173,14 +188,17 @@ class CsrfProtection:
             sig.update(bytes(origin, 'utf-8'))
         # logging.debug("check_csrf Referer: {}".format(flask.request.headers['Referer']))
         sig.update(bytes(salt, 'utf-8'))
+        sig.update(bytes(stamp, 'utf-8'))
         b64_sig = str(base64.b64encode(sig.digest()))
-        if token != b64_sig:
+        if token != b64_sig or expires is None:
             logging.debug("signatures do not match: %s %s", token, b64_sig)
             raise CsrfFailureException("signatures do not match")
+        if expires <= datetime.datetime.now():
+            raise CsrfFailureException("csrf_token has expired")
         # Only record (and commit) the token once it has been verified. The
         # commit also flushes any pending changes of the calling handler,
-        # which must not happen for a request that fails the CSRF check
-        expires = datetime.datetime.now() + KEY_LIFETIMES[TokenType.CSRF]
+        # which must not happen for a request that fails the CSRF check.
+        # The record is kept for as long as the token could be used
         existing_key = Token(
             jti=jti, token_type=TokenType.CSRF.value, expires=expires, revoked=False)
         db.session.add(existing_key)
